@@ -7,7 +7,7 @@ VIAB = ('contracts.viability', None)
 CONV = ('contracts.conversion', None)
 REG_Q = ('contracts.regions', ['QualitativeDiscretizer._prepare_data@marker_loop'])
 REG_C = ('contracts.regions', ['ChainedDiscretizer._prepare_data@unknown_values_loop', 'ChainedDiscretizer._prepare_data@marker_loop', 'ChainedDiscretizer.fit@merge_loop'])
-ENUM = ('contracts.base_carver', ['combinations_at_index', 'consecutive_combinations', 'consecutive_combinations@top', 'nan_combinations', 'order_apply_combination'])
+ENUM = ('contracts.base_carver', ['combinations_at_index', 'consecutive_combinations', 'consecutive_combinations@top', 'nan_combinations', 'order_apply_combination', 'BaseCarver._combination_formatter'])
 
 REGISTRY = {
  'C01': dict(level='other', P=[ENUM, ('contracts.measures', ['BinaryCarver._association_measure']), VIAB], R=['rtc.c01_carver'],
